@@ -321,6 +321,12 @@ def families(tier='quick'):
     fams.append(('chain (-1) - (-2) - 3: identifiers with equal hashes', [-1, -2, 3], [(0, -1, -2, 0, 1), (1, -2, 3, 0, 3)]))
     # identifiers of mixed types whose texts collide (1 from a program, '1' from a file)
     fams.append(("chain 1 - '1' - 2: an integer and a string identifier with the same text", [1, '1', 2], [(0, 1, '1', 0, 1), (1, '1', 2, 0, 3)]))
+    # an edge from a node to itself (a cul-de-sac loop digitised as one edge), added BEFORE the other edges of that node
+    fams.append(('two-way self-loop on A, then A-B and A-C', [A, B, C], [(0, A, A, 0, 1), (1, A, B, 0, 1), (2, A, C, 0, 3)]))
+    fams.append(('one-way self-loop on B, then A-B and B-C', [A, B, C], [(0, B, B, 1, 3), (1, A, B, 0, 1), (2, B, C, 1, 1)]))
+    fams.append(('two-way self-loop on B between A-B and B-C, C-A', [A, B, C], [(0, A, B, 0, 3), (1, B, B, 0, 1), (2, B, C, 0, 1), (3, C, A, 0, 1)]))
+    # identifiers that are pairs of numbers (row, column of a grid)
+    fams.append(('chain (0, 0) - (0, 1) - (1, 1): identifiers that are pairs of numbers', [(0, 0), (0, 1), (1, 1)], [(0, (0, 0), (0, 1), 0, 1), (1, (0, 1), (1, 1), 1, 3)]))
     fams.append(('triangle 0, 2**61 - 1, 7: identifiers with equal hashes', [0, 2 ** 61 - 1, 7], [(0, 0, 2 ** 61 - 1, 1, 1), (1, 2 ** 61 - 1, 7, 1, 1), (2, 0, 7, 0, 3)]))
     if tier == 'thorough':
         for (o1, o2, o3) in itertools.product(ORI, repeat=3):
